@@ -205,7 +205,16 @@ fn check(c: &Case, ctx: &Ctx) -> Outcome {
                     // the sample name is the file name without its extension, however the extension is capitalised
                     format!("{n}{}", [".fa", ".FA", ".fasta", ".FASTA", ".Fa"][(si + m.sites.len()) % 5])
                 };
-                cli::write_fasta_auto(&dir.join(&f), recs, width_of(c, si));
+                if !same_base && (si + c.k + m.sites.len()) % 4 == 2 {
+                    // a staged input: the file that is named is a symbolic link to an assembler's output of another
+                    // name; the sample is called after the path that was given
+                    let store = format!("store/run_{si}");
+                    std::fs::create_dir_all(dir.join(&store)).unwrap();
+                    cli::write_fasta_auto(&dir.join(&store).join("contigs.fasta"), recs, width_of(c, si));
+                    std::os::unix::fs::symlink(dir.join(&store).join("contigs.fasta"), dir.join(&f)).unwrap();
+                } else {
+                    cli::write_fasta_auto(&dir.join(&f), recs, width_of(c, si));
+                }
                 args.push(f);
             }
             let argv: Vec<&str> = args.iter().map(|s| s.as_str()).collect();
